@@ -55,6 +55,17 @@ func checkTree(k *run.K, t model.Tree, scan bool) {
 		return
 	}
 	shared.ConcreteAgree(k, g, "concrete-entry", []shared.Call{{Method: "AsBinary"}, {Method: "AppendWKB", Args: []any{[]byte("prefix")}}, {Method: "Value"}}, nil)
+	// the returned bytes belong to the caller: later encoding (of anything) must not change them
+	{
+		keep := append([]byte(nil), lib...)
+		k.Lib("nopanic", func() {
+			_ = g.AsBinary()
+			_ = geom.NewLineStringXY(1, 2, 3, 4).AsGeometry().AsBinary()
+			_ = geom.NewPointXYZ(7, 8, 9).AsBinary()
+			_ = geom.NewPointXY(-1, -2).AsGeometry().AsBinary()
+		})
+		k.Check("reencode", bytes.Equal(lib, keep), "bytes returned by AsBinary changed after later AsBinary calls")
+	}
 	k.In("wkb", lib)
 	want := codec.EncodeWKB(t)
 	k.Check("bytes-vs-independent", bytes.Equal(lib, want), "AsBinary differs from the independent little-endian writer:\n lib  %x\n want %x", lib, want)
